@@ -120,8 +120,10 @@ def run_history(init, conns):
                 err = "HTTPExc"
 
         start = [p.leid, p.retry]
-        msg.extend(HEAD_CHUNKED if conn["mode"] == "chunked" else HEAD_UNTIL)
-        pump()
+        head = HEAD_CHUNKED if conn["mode"] == "chunked" else HEAD_UNTIL
+        for piece in K.cut(head, conn.get("head_cuts", [])):      # the response head may itself arrive in pieces
+            msg.extend(piece)
+            pump()
         trace = []
         for frag in conn["reads"]:
             msg.extend(frag)
@@ -136,10 +138,18 @@ def run_history(init, conns):
         o["close_err"] = err
         o["resp_leid"], o["resp_retry"], o["ended"] = p.leid, p.retry, bool(p.ended)
         out.append(o)
+        del msg[:]                 # whatever was left of the dropped connection is discarded
         p.makeParser()
+        err = None
+        for _ in range(conn.get("idle", 0)):
+            # still cut off, reconnect timer not expired: Client.service closes the respondent and steps it every pass
+            p.close()
+            pump()
+            if p.parser is None:       # serviceResponse: makeParser() again whenever the respondent has ended
+                p.makeParser()
+            err = None
         p.reinit()
         p.events.clear()
-        del msg[:]
     return out
 
 
@@ -151,8 +161,7 @@ def run_mode(mode, reads):
 
 def run_impl(case):
     if case["mode"] == "history":
-        return {"conns": run_history(case.get("init"), [{"mode": c["mode"], "reads": [unh(x) for x in c["reads"]]}
-                                                        for c in case["conns"]])}
+        return {"conns": run_history(case.get("init"), [dict(c, reads=[unh(x) for x in c["reads"]]) for c in case["conns"]])}
     return run_mode(case["mode"], [unh(x) for x in case["reads"]])
 
 
@@ -190,7 +199,7 @@ def oracle_history(case, obs):
     carry_retry = (case.get("init") or {}).get("retry")
     if carry_retry is None:
         carry_retry = 100
-    whole = run_history(case.get("init"), [{"mode": c["mode"], "reads": [b"".join(unh(x) for x in c["reads"])]}
+    whole = run_history(case.get("init"), [dict(c, reads=[b"".join(unh(x) for x in c["reads"])])
                                            for c in case["conns"]])
     for k, (c, o, w) in enumerate(zip(case["conns"], obs["conns"], whole)):
         if o["err"] is not None:
@@ -347,7 +356,11 @@ def _gen_conn(rng, idless_first):
         wire = body
     r = rng.random()
     cuts = list(range(1, len(wire))) if r < 0.2 and len(wire) < 400 else K._rand_cuts(rng, wire)
-    return {"mode": mode, "reads": [h(x) for x in K.cut(wire, cuts)], "cut": cutoff}
+    head = HEAD_CHUNKED if mode == "chunked" else HEAD_UNTIL
+    hl = [i + 2 for i in range(len(head) - 2) if head[i:i + 2] == b"\r\n"]
+    head_cuts = rng.choice([[], [], hl[:1], hl, [rng.randrange(1, len(head))]])
+    return {"mode": mode, "reads": [h(x) for x in K.cut(wire, cuts)], "cut": cutoff,
+            "head_cuts": head_cuts, "idle": rng.choice([0, 0, 1, 2, 3])}
 
 
 def _gen_history(rng):
@@ -404,6 +417,13 @@ def directed():
         out.append(_hist(None, [(mode, s1, list(range(1, 90)), False), (mode, s2, list(range(1, 90)), True)]))
         out.append(_hist({"leid": "77", "retry": 2500}, [(mode, s2[:2], [], True), (mode, [b"retry: 5\n\n"], [3], True)]))
         out.append(_hist({"leid": "77", "retry": None}, [(mode, [b"id\n\n", b"data: x\n\n"], [], True)]))
+    # cut off with the reconnect timer not expired: the respondent is closed every pass while idle; the resumed
+    # response (head split at a line end, body in fragments) must be parsed normally (finding D42, repo 0a30e14)
+    for mode in ("until", "chunked"):
+        hc = _hist(None, [(mode, s1, [], False), (mode, [b"data: b\n\n", b"data: c\n\n"], [9, 18] if mode == "until" else [14, 28], mode == "chunked")])
+        hc["conns"][0]["idle"] = 3
+        hc["conns"][1]["head_cuts"] = [17]
+        out.append(hc)
     # line-length limit
     long_ok = b"data: " + b"z" * 65530 + b"\r\n\r\n"
     long_bad = b"data: " + b"z" * 65531 + b"\r\n\r\n"
